@@ -1,8 +1,6 @@
 import PGV.Props.C05
 
-#print axioms PGV.Props.C05.isDigit_eq
 #print axioms PGV.Props.C05.C05_int
-#print axioms PGV.Props.C05.digit_of_range
 #print axioms PGV.Props.C05.C05_phone
 #print axioms PGV.Props.C05.C05_float
 #print axioms PGV.Props.C05.C05_idcard
@@ -13,6 +11,7 @@ import PGV.Props.C05
 #print axioms PGV.Props.C05.C05_verdict_idcard
 #print axioms PGV.Props.C05.C05_verdict_int
 #print axioms PGV.Props.C05.C05_verdict_float
+#print axioms PGV.Props.C05.C05_accepts_sound
 #print axioms PGV.Props.C05.C05_timefmt_year
 #print axioms PGV.Props.C05.C05_timefmt_year2month
 #print axioms PGV.Props.C05.C05_timefmt_date
